@@ -36,6 +36,8 @@ def msg_class(m):
                       ("interface conversion", "interface-conversion"),
                       ("empty output", "empty-output"),
                       ("does not parse back", "sen-unparsable"),
+                      ("stack overflow", "fatal-stack-overflow"),
+                      ("stack exceeds", "fatal-stack-overflow"),
                       ("invalid memory address", "nil-dereference")):
         if key in m:
             return name
@@ -73,7 +75,8 @@ def locus_of(b):
 
 # encoders that receive a pointer (addressable value: offset based plans, pointer-receiver methods reachable)
 ADDRESSABLE = {"oj.JSON/ptr", "oj.JSON/indent", "sen.String/indent", "oj.Write/wl40", "sen.String/ptr", "sen.Write/wl7", "alt.Decompose/ptr"}
-FAIL_CLASSES = {"nil-embedded-pointer": {"nil-embedded-indirection", "empty-output"},
+FAIL_CLASSES = {"embedded-pointer-cycle": {"fatal-stack-overflow"},
+                "nil-embedded-pointer": {"nil-embedded-indirection", "empty-output"},
                 "named-scalar": {"interface-conversion", "empty-output"},
                 "custom": {"reflect.Value.Addr_of_unaddressable_valu", "empty-output"},
                 "time-field": {"reflect.Value.Addr_of_unaddressable_valu", "empty-output"}}
@@ -86,8 +89,8 @@ def as_implemented(b, api, loc):
     the same cell keeps its per-encoder key and stays a violation."""
     d, w = b["d"], js(b["w"])
     if b["kind"] == "fails" and d["ctx"] in FAIL_CLASSES and msg_class(b["m"]) in FAIL_CLASSES[d["ctx"]]:
-        if d["ctx"] == "nil-embedded-pointer":
-            return "(any encoder)", "as-implemented|fails|nil-embedded-pointer"
+        if d["ctx"] in ("nil-embedded-pointer", "embedded-pointer-cycle"):
+            return "(any encoder)", "as-implemented|fails|" + d["ctx"]
         if api not in ADDRESSABLE and not api.startswith("pretty."):
             return "(any encoder, value source)", "as-implemented|fails|" + d["ctx"]
         if api.startswith("pretty."):          # pretty goes through alt.Decompose of the value
@@ -199,7 +202,7 @@ def gen_cases(ctx):
         raise Infra("case generation produced only %d cases" % len(cases))
     # named library types as top-level values (CreateKey / FullTypePath need a named top-level type)
     for top in ("S", "T1", "T2", "U", "V", "W", "Tagged", "Unexp", "Emb", "EmbPtr", "Simp", "PSimp", "Gen", "JM", "PJM", "TM",
-                "[]anyF", "[]anyP", "L1", "Str1", "Str2", "Col1", "Col2", "Col3", "[4]uint8", "[1]uint8", "[0]uint8", "BA4", "BS", "[]BS", "[][4]uint8", "N", "IS1", "IS64", "IP1", "Tree", "List", "Node", "*Node", "[]Node", "P", "Ma"):
+                "[]anyF", "[]anyP", "L1", "Str1", "Str2", "Col1", "Col2", "Col3", "[4]uint8", "[1]uint8", "[0]uint8", "BA4", "BS", "[]BS", "[][4]uint8", "N", "IS1", "IS64", "IP1", "Tree", "List", "Node", "*Node", "[]Node", "P", "Ma", "EN", "*EN", "EA"):
         for v in ("z", "n", "e"):
             if (top.startswith("[]") or top == "BS") and v == "z":
                 continue          # a nil top-level slice is not a struct value (null or [] are both fine)
